@@ -110,6 +110,13 @@ def dir_case(task):
     out = {'tag': tag, 'bad': [], 'reads': 0, 'raised': 0}
     try:
         param = etgen.write_sim(root, spec)
+        if spec.get('drop_chunk') is not None:
+            # one per-process file got lost: a hole in the decomposition
+            import glob as _g
+            for fn in _g.glob(os.path.join(
+                    root, spec['simname'], 'output-*', spec['simname'],
+                    f"*.file_{spec['drop_chunk']}.h5")):
+                os.remove(fn)
         for (rv, ri, rl, restart, extra) in reqs:
             # the printing options alternate from read to read (output is
             # captured): they must not change what is returned
@@ -326,6 +333,21 @@ def build_tasks(tier):
                           bool(variant.get('always_c')) and cuts == (1, 1, 1),
                           (f"F6:{sorted(variant)}:cuts={cuts}",
                            f"layout={int(grouped)}{int(proc)}")))
+    # F7: a hole in the decomposition (a lost per-process file): raise,
+    #     never an array with the pieces closed up
+    for grouped, (cuts, drop) in itertools.product(
+            (False, True), [((1, 1, 4), 2), ((1, 1, 4), 1), ((2, 2, 1), 1),
+                            ((1, 3, 1), 1)]):
+        shape = (6, 6, 8)
+        spec = base_spec('sim', grouped, True, 1, {0: shape},
+                         [{'its': {0: r0(0, 1)},
+                           'boxes': {0: etgen.tensor_boxes(shape, cuts)}}],
+                         variables=['alp', 'betax', 'betay', 'betaz'])
+        spec['drop_chunk'] = drop
+        tasks.append((spec, [(['alpha'], r0(0), 0, -1, {}),
+                             (['betaup3'], r0(1, 0), 0, 0, {})], 'sorted',
+                      True, (f"F7:hole:cuts={cuts}:drop={drop}",
+                             f"grouped={int(grouped)}")))
     # F5: reading from checkpoints (every variable, time levels 0 and 1)
     shapes5 = {0: (6, 5, 4), 1: (4, 6, 5)}
     for (grouped, proc), cuts in itertools.product(
